@@ -89,7 +89,7 @@ TIMES = st.sampled_from([None, 0, 1, 2, 5, 9, 3, 1.000001, 7.5, 1004])
 @st.composite
 def s_history(draw, max_tests=4, with_run=True, with_tags=True, with_time=True, with_control=False,
               with_startless=False, with_placeholder=False, tags_after_outcome=True, test_kinds=("case",),
-              second_run=True, max_ops=30, skip_both=False):
+              second_run=True, max_ops=30, skip_both=False, loose_runs=False):
     ops = []
     in_test = False
     have_outcome = False
@@ -121,6 +121,10 @@ def s_history(draw, max_tests=4, with_run=True, with_tags=True, with_time=True, 
                 choices += ["time"]
             if with_run and second_run and in_run and ntests > 0:
                 choices += ["restart"]
+            if loose_runs and with_run and len(ops) > 0:
+                # run boundaries anywhere between tests: a first explicit start after earlier activity, a start while a
+                # run is in progress, a stop that is followed by more reports
+                choices += ["loose_start"] + (["loose_stop"] if in_run else [])      # (a stop without any start is a malformed use)
             if with_control:
                 choices += ["stop", "done", "progress"]
         if not choices:
@@ -149,6 +153,12 @@ def s_history(draw, max_tests=4, with_run=True, with_tags=True, with_time=True, 
         elif c == "restart":
             ops.append({"op": "stopTestRun"})
             ops.append({"op": "startTestRun"})
+        elif c == "loose_start":
+            ops.append({"op": "startTestRun"})
+            in_run = True
+        elif c == "loose_stop":
+            ops.append({"op": "stopTestRun"})
+            in_run = False
         elif c == "startless_skip":
             between = None
             if with_tags and draw(st.integers(0, 2)) == 0:       # a tags() call wedged between the addSkip and its stopTest
